@@ -6,6 +6,7 @@
 //	   every other grammar position of every rule (k = 2 quick, 3 thorough; lexical rules instantiated from the fixed token pools of
 //	   verif/enum/grammar), de-duplicated;
 //	C  every query of the repository corpora (cypher/test/cases, pgsql translation cases, integration cases);
+//	S  every map-literal position x every ordered pair of key spellings (plain / backtick-quoted / reserved word), spellingTexts;
 //	M  every single-token deletion, duplication and neighbour swap of every corpus query, and every insertion of an unlexable
 //	   character ("!") at a token boundary.
 //
@@ -147,6 +148,14 @@ func explore(s *explorer, k int) {
 			s.eval(artefact{Text: c.Text, Origin: "corpus"})
 		}
 	}
+	for _, t := range spellingTexts() {
+		if s.take(t) {
+			s.eval(artefact{Text: t, Origin: "spelling"})
+		}
+	}
+	if s.me == 0 {
+		run.Add("spelling_texts", int64(len(spellingTexts())))
+	}
 	g, err := cytext.LoadGrammar()
 	if err != nil {
 		core.Fatalf("grammar: %v", err)
@@ -185,6 +194,32 @@ func explore(s *explorer, k int) {
 			}
 		}
 	}
+}
+
+// spellingTexts is family S: every map-literal position of the grammar (expression, node and relationship properties,
+// WITH) filled with every ordered pair of key spellings from a pool in which the same name occurs plain and
+// backtick-quoted, next to a distinct name, a name that needs quoting and a reserved word. The grammar derivations
+// draw both keys of a map from the same token pool entry or from different names, never the same name in two
+// spellings, so "the same key twice" was only ever tried in one spelling.
+func spellingTexts() []string {
+	keys := []string{"name", "`name`", "other", "`other`", "`a b`", "end", "`end`"}
+	templates := []string{
+		"return {%s: 1, %s: 2}",
+		"return {%s: 1, b: 3, %s: 2}",
+		"with {%s: 1, %s: 2} as m return m",
+		"match (n {%s: 1, %s: 2}) return n",
+		"match ()-[r {%s: 1, %s: 2}]->() return r",
+		"match (n) where n.x = {%s: 1, %s: 2} return n",
+	}
+	var out []string
+	for _, t := range templates {
+		for _, a := range keys {
+			for _, b := range keys {
+				out = append(out, fmt.Sprintf(t, a, b))
+			}
+		}
+	}
+	return out
 }
 
 func replay(run *core.Run) {
